@@ -277,6 +277,19 @@ func cmdCheck(args []string) {
 		if o.Kind == "cover-pre" {
 			continue
 		}
+		if o.Kind == "cover-exit" {
+			covers++
+			if o.Result == "unsat" {
+				if !e.deadExitListed(*verif, prop, rec.Name) {
+					report(o, "vacuity: this exit is unreachable under the contract's preconditions and the callee contracts, so its postconditions hold trivially (not listed in DEAD_EXITS.txt)", false)
+				} else {
+					deadSites++
+				}
+			} else if o.Result != "sat" {
+				inconclusiveCovers++
+			}
+			continue
+		}
 		if o.ExpectSat {
 			if o.Kind == "cover" {
 				covers++
@@ -500,4 +513,23 @@ func oblGroups(obls []*Obl, sobls []*StructObl) []string {
 	}
 	sort.Strings(out)
 	return out
+}
+
+var deadExits map[string]bool
+
+// deadExitListed: exits that are unreachable on the unchanged tree (dead branches under the
+// stated preconditions) are listed in DEAD_EXITS.txt so that a newly unreachable exit is noticed.
+func (e *Engine) deadExitListed(verif, prop, name string) bool {
+	if deadExits == nil {
+		deadExits = map[string]bool{}
+		if data, err := os.ReadFile(filepath.Join(verif, "DEAD_EXITS.txt")); err == nil {
+			for _, ln := range strings.Split(string(data), "\n") {
+				ln = strings.TrimSpace(ln)
+				if ln != "" && !strings.HasPrefix(ln, "#") {
+					deadExits[ln] = true
+				}
+			}
+		}
+	}
+	return deadExits[name]
 }
